@@ -36,7 +36,7 @@ PROPS = {
         "thorough": {"runs": 400000, "wall": 900},
         "min_probes": {
             "quick": {"_runs": 5000, "joined-inflight": 100, "window-hook-with-arrival": 50, "failed-download-with-warm-cache": 20,
-                      "rotation-between-handle-and-deliver": 20, "deadline-while-waiting": 20, "two-successive-downloads": 100, "kid-less-ambiguous": 10},
+                      "rotation-between-handle-and-deliver": 20, "deadline-while-waiting": 20, "two-successive-downloads": 100, "kid-less-ambiguous": 10, "own-context-ended-while-waiting": 200, "call-accepted-after-refresh": 1000},
             "thorough": {"_runs": 100000, "joined-inflight": 1000, "window-hook-with-arrival": 1000, "failed-download-with-warm-cache": 500},
         },
         "components": {"real": ["pkg/client/rp.remoteKeySet (jwks.go)", "pkg/http.HttpRequest", "pkg/oidc.FindMatchingKey", "go-jose signature verification", "net/http.Client"],
@@ -55,7 +55,7 @@ PROPS = {
         "honestly or with 1-2 deviations (foreign client, replay, wrong/missing redirect_uri or verifier, wrong/no secret). non-trivial = at least one honest redemption "
         "succeeded and one adversarial redemption was attempted; distinct = distinct step history",
         {"runs": 250, "wall": 60}, {"runs": 40000, "wall": 900},
-        {"quick": {"_runs": 1500, "honest-redeem-success": 1000, "adversarial-redeem": 5000, "code-issued": 3000},
+        {"quick": {"_runs": 1500, "honest-redeem-success": 1000, "adversarial-redeem": 5000, "code-issued": 3000, "concurrent-pairs": 3000},
          "thorough": {"_runs": 50000, "honest-redeem-success": 50000}},
         "Seeded exploration of interleaved multi-client histories; every 2xx token response is checked against the ledger of issued codes (client, redirect URI, PKCE, single use, token binding).",
         "DESIGN.md section 4 C04"),
@@ -115,7 +115,7 @@ PROPS = {
         "10 malformed Basic headers x 10 grant types x 4 endpoints, 10 malformed bodies, 14 routes x 7 methods x 10 queries, 150 seeded mutations), ~1730 faulty-peer answers to 18 client helpers, ~1750 decoder/verifier inputs. "
         "distinct non-trivial = distinct (router, case) executed plus distinct world configurations",
         {"runs": 2, "wall": 120}, {"runs": 200, "wall": 1500},
-        {"quick": {"_runs": 32, "server-cases": 90000, "client-cases": 50000, "decoder-cases": 50000, "server-error-answers": 50000, "client-errors-returned": 30000},
+        {"quick": {"_runs": 32, "server-cases": 90000, "client-cases": 50000, "decoder-cases": 50000, "server-error-answers": 50000, "client-errors-returned": 30000, "keyset-child-cases": 2000},
          "thorough": {"_runs": 2000}},
         "Fault enumeration over a stated catalogue (complete per world) plus seeded mutation: no handler, helper, verifier or decoder may panic; a recorder counts response headers and the storage journal shows whether a handler went on after answering with an error.",
         "DESIGN.md section 4 C09", level="fault_enumeration",
@@ -155,7 +155,7 @@ PROPS = {
         "one evaluation = one seeded world (router, PKCE, cookie max-age, auth style) running 30-70 steps: start a login through rp.AuthURLHandler, deliver a callback in one of 16 variants, advance the clock past the cookie age. "
         "non-trivial = at least one callback led to a token request and one was refused; distinct = distinct step history",
         {"runs": 100, "wall": 60}, {"runs": 40000, "wall": 1200},
-        {"quick": {"_runs": 1500, "code-sent-to-provider": 2000, "callback-refused": 15000, "honest-login-completed": 800, "attempt-started": 15000}, "thorough": {"_runs": 100000}},
+        {"quick": {"_runs": 1500, "code-sent-to-provider": 2000, "callback-refused": 15000, "honest-login-completed": 800, "attempt-started": 15000, "concurrent-starts": 2000}, "thorough": {"_runs": 100000}},
         "Seeded exploration; a token-endpoint request from the RP implies the callback's state equals the plaintext of a state cookie this RP instance signed and presented by that browser, and the verifier sent equals the pkce cookie whose S256 went into the authorization URL; refusals run the unauthorized handler and send nothing.",
         "DESIGN.md section 4 C17"),
     "C06": flow(
@@ -220,7 +220,7 @@ PROPS = {
         "one evaluation = one seeded isolation program of 25-45 steps (construct providers with custom/default endpoints, relying parties, resource servers; EndSession, RevokeToken, Userinfo, Discover, device polling) with the invariants checked after every step, "
         "plus four seeded goroutine mixes (4-8 goroutines from a barrier) on one provider, one relying party, one resource server + key set, and concurrent construction, all in a -race build. distinct = distinct isolation program",
         {"runs": 12, "wall": 120}, {"runs": 3000, "wall": 1500},
-        {"quick": {"_runs": 150, "isolation-programs": 150, "race-mixes": 600}, "thorough": {"_runs": 10000}},
+        {"quick": {"_runs": 150, "isolation-programs": 150, "race-mixes": 750, "scheduled-concurrent-logins": 200}, "thorough": {"_runs": 10000}},
         "Isolation: deterministic and replayable. Races: the seed fixes the program, the interleaving is the Go runtime's; a report is a happens-before violation found by the race detector, replayed by re-running the seed under -race (in practice stable, in principle probabilistic).",
         "DESIGN.md section 4 C20",
         level_note="Trusted: the Go race detector. The race half does not control the schedule (the simulator's own channels would create the happens-before edges that hide races); stated in DESIGN.md."),
